@@ -90,8 +90,12 @@ Supers(c, t0) ==
 \* ---------------------------------------------------------------- C11: applicability (auto bounds)
 \* which traits the corpus items provide by hand next to the educed ones (always applicable)
 RECURSIVE Applies(_, _, _)
+Educes(c, t) ==
+  CASE t = "Into:A" -> HasTrait(c, "Into") /\ "A" \in SeqToSet(c.opts.targets)
+    [] t = "Into:B" -> HasTrait(c, "Into") /\ "B" \in SeqToSet(c.opts.targets)
+    [] OTHER -> HasTrait(c, t)
 Applies(c, t, a) ==
-  IF ~HasTrait(c, t) THEN TRUE          \* provided by a hand-written, unconditional impl in the corpus
+  IF ~Educes(c, t) THEN TRUE          \* provided by a hand-written, unconditional impl in the corpus
   ELSE /\ \A p \in Delegated(c, t) : ImplTy(F(c, p).ty, a)
        /\ \A s \in Supers(c, t) : Applies(c, s, a)
 
